@@ -42,7 +42,7 @@ func (p *propC09) Prepare(seed uint64, tier string) int {
 	p.pool = buildHistPool(seed, false)
 	p.count = 4000
 	if isThorough(tier) {
-		p.count = 150000
+		p.count = 50000
 	}
 	return p.count
 }
